@@ -1900,17 +1900,35 @@ func (c *Cluster) globalPinInfoSlice(ctx context.Context, comp, method string, a
 		}
 	}
 
-	// Merge any errors
+	// Merge any errors. As in globalPinInfoCid, a peer which could not be
+	// contacted is in error for the items allocated to it and remote
+	// for the rest.
+	var cState state.ReadOnly
+	if len(erroredPeers) > 0 {
+		cState, err = c.consensus.State(ctx)
+		if err != nil {
+			logger.Warn(err)
+		}
+	}
 	for p, msg := range erroredPeers {
-		for c := range fullMap {
+		for ci := range fullMap {
+			status := api.TrackerStatusClusterError
+			errMsg := msg
+			if cState != nil {
+				pin, err := cState.Get(ctx, ci)
+				if err == nil && !pin.IsPinEverywhere() && !containsPeer(pin.Allocations, p) {
+					status = api.TrackerStatusRemote
+					errMsg = ""
+				}
+			}
 			setPinInfo(&api.PinInfo{
-				Cid:  c,
+				Cid:  ci,
 				Name: "",
 				Peer: p,
 				PinInfoShort: api.PinInfoShort{
-					Status: api.TrackerStatusClusterError,
+					Status: status,
 					TS:     time.Now(),
-					Error:  msg,
+					Error:  errMsg,
 				},
 			})
 		}
